@@ -85,6 +85,12 @@ type ZPtrShallow struct {
 	*ZXP
 }
 
+// a method of the outer struct has the name of a field promoted from an embedded struct: as in Go the
+// selector denotes the method (depth 0), the promoted field (depth 1) is only reachable through ZBase
+type ZDoc struct{ ZBase }
+
+func (d ZDoc) Title() string { return "title-method-of-doc" }
+
 type ZOuter struct {
 	ZBase
 	*ZPEmb
@@ -115,6 +121,7 @@ type ZOuter struct {
 	Nest    ZN0
 	Win     []string // a window on a longer backing array: cap > len
 	PS      ZPtrShallow
+	Doc     ZDoc
 	private string
 }
 
@@ -146,6 +153,7 @@ func zooRoot(variant int) interface{} {
 		Word:  "hello",
 		Nest:  ZN0{ZN1: ZN1{ZN2: ZN2{ZCore: ZCore{First: "one", Second: "two", Third: "three"}}, Mid: "mid"}, Top: "top"},
 		Win:   []string{"w0", "w1", "w2", "SECRET-1", "SECRET-2"}[:3],
+		Doc:   ZDoc{ZBase{ID: 5, Title: "title-field-hidden-by-the-method"}},
 		PS:    ZPtrShallow{ZXB: ZXB{ZXA{X: 1, OnlyA: "only-a"}}, ZXP: &ZXP{X: 2, OnlyP: "only-p"}},
 	}
 	switch variant {
@@ -363,6 +371,9 @@ func zOptions(v reflect.Value) (valid, invalid []zStep) {
 		}
 		sort.Strings(ns)
 		for _, n := range ns {
+			if _, isMethod := reflect.PtrTo(t).MethodByName(n); isMethod {
+				continue // the selector denotes the method; it is offered as a method step below
+			}
 			if _, st, _ := zResolve(d.Interface(), []zStep{{Kind: "field", Name: n}}); st == zOK {
 				valid = append(valid, zStep{Kind: "field", Name: n})
 			} else {
